@@ -61,8 +61,8 @@ Definition jverdict (c : jcase) : list nat :=
   let create_case := fun inds pn =>
       let m := create_joint_distribution Q 0%Q Qmult sq (fun x => x) (1 # 10)%Q ie inds pn p r in
       match m, j_out c with
-      | Err IndexError, None => if j_internal c then [60; 252] else [51]
-      | Err _, None => if j_internal c then [51] else []
+      | Err IndexError, None => if j_internal c then [60] else [51]
+      | Err _, None => if j_internal c then [60; 51] else []   (* an internal IndexError is always reported *)
       | Ok (mr, mp), Some (ir, ip) =>
           jtag (jall2 sdist_eqb mr ir) 51 ++
           (* parameters: the implementation may drop unused ones afterwards; every parameter it keeps is the
